@@ -27,6 +27,9 @@ map() { # subject -> checks
     *"upvalue list holds"*|*"climbs above the root"*|*"moves its entries without comparing"*|*"remember the best row"*|*"tolerates the language"*) echo C04 ;;
     *"marks everything a table stores"*) echo C02 ;;
     *"are traced to the card itself"*) echo C15 ;;
+    *"captures the locals of the frame"*) echo C18 ;;
+    *"parameter of the entry function"*) echo C04 ;;
+    *"set_memory_limit stores"*) echo C17 ;;
     *) echo "" ;;
   esac
 }
